@@ -512,85 +512,99 @@ Proof.
     destruct Nt as (s & E & _). subst th. discriminate C.
 Qed.
 
-Theorem sreach_kinv : forall n scripts sched, KInv (sreach n scripts sched).
+Theorem sreach_kinv : forall n scripts sched, noupd scripts = true -> KInv (sreach n scripts sched).
 Proof.
-  intros. unfold sreach. destruct (sexec (sinit n scripts) sched) as [[st e] k] eqn:E. simpl.
+  intros n scripts sched NU. unfold sreach. destruct (sexec (sinit n scripts) sched) as [[st e] k] eqn:E. simpl.
   destruct (sinit_kinv n scripts) as [W K].
-  destruct (sexec_kinv _ _ _ _ _ (sinit_linv n scripts) W K E) as [_ K']. exact K'.
+  destruct (sexec_kinv _ _ _ _ _ (sinit_linv n scripts NU) W K E) as [_ K']. exact K'.
+Qed.
+
+Lemma reach_nou_pc : forall n scripts sched t th,
+  noupd scripts = true -> nthN t (mths (sreach n scripts sched)) = Some th -> nou_pc (tpc th) = true.
+Proof.
+  intros n scripts sched t th NU Nt. destruct (sreach_linv n scripts sched NU) as [_ [_ HU]].
+  destruct (HU th (nthN_In _ _ _ _ Nt)) as (_ & X & _). exact X.
 Qed.
 
 (* ---------- statements in the form used by Properties_C55.v ---------- *)
 Theorem reach_reader_key : forall n scripts sched t th f k a,
   let st := sreach n scripts sched in
+  noupd scripts = true ->
   nthN t (mths st) = Some th -> isReader th f k -> nthN f (anchors (msh st)) = Some a -> akey a = k.
-Proof. intros n scripts sched t th f k a st. apply (sreach_kinv n scripts sched). Qed.
+Proof. intros n scripts sched t th f k a st NU. apply (sreach_kinv n scripts sched NU). Qed.
 
 Theorem reach_one_writer : forall n scripts sched f a i j thi thj x y,
   let st := sreach n scripts sched in
+  noupd scripts = true ->
   nthN f (anchors (msh st)) = Some a ->
   i <> j -> nthN i (mths st) = Some thi -> nthN j (mths st) = Some thj ->
   holdsP f thi = Some x -> holdsP f thj = Some y -> is_writer x = true -> is_writer y = true -> False.
 Proof.
-  intros n scripts sched f a i j thi thj x y st Ha D Ni Nj Hx Hy Wx Wy.
-  pose proof (holders_compat_PP st (sreach_linv n scripts sched) f a i j thi thj x y Ha D Ni Nj Hx Hy) as C.
+  intros n scripts sched f a i j thi thj x y st NU Ha D Ni Nj Hx Hy Wx Wy.
+  pose proof (holders_compat_PP st (sreach_linv n scripts sched NU) f a i j thi thj x y Ha D Ni Nj Hx Hy) as C.
   destruct x, y; simpl in *; discriminate.
 Qed.
 
 Theorem reach_reader_vs_writer : forall n scripts sched f a i j thi thj k y,
   let st := sreach n scripts sched in
+  noupd scripts = true ->
   nthN f (anchors (msh st)) = Some a ->
   i <> j -> nthN i (mths st) = Some thi -> nthN j (mths st) = Some thj ->
   isReader thi f k -> holdsP f thj = Some y -> is_writer y = true -> y = MAppend \/ y = MBusy.
 Proof.
-  intros n scripts sched f a i j thi thj k y st Ha D Ni Nj [_ R] Hy Wy.
-  pose proof (holders_compat_PP st (sreach_linv n scripts sched) f a i j thi thj MShared y Ha D Ni Nj R Hy) as C.
+  intros n scripts sched f a i j thi thj k y st NU Ha D Ni Nj [_ R] Hy Wy.
+  pose proof (holders_compat_PP st (sreach_linv n scripts sched NU) f a i j thi thj MShared y Ha D Ni Nj R Hy) as C.
   destruct y; simpl in *; try discriminate; auto.
 Qed.
 
 Theorem reach_reader_vs_transient : forall n scripts sched f a i j thi thj k y,
   let st := sreach n scripts sched in
+  noupd scripts = true ->
   nthN f (anchors (msh st)) = Some a ->
   nthN i (mths st) = Some thi -> nthN j (mths st) = Some thj ->
   isReader thi f k -> holdsT f thj = Some y -> y = MIdle \/ y = MShared \/ y = MHeaders \/ y = MAppend \/ y = MBusy.
 Proof.
-  intros n scripts sched f a i j thi thj k y st Ha Ni Nj [_ R] Hy.
-  pose proof (holders_compat_PT st (sreach_linv n scripts sched) f a i j thi thj MShared y Ha Ni Nj R Hy) as C.
+  intros n scripts sched f a i j thi thj k y st NU Ha Ni Nj [_ R] Hy.
+  pose proof (holders_compat_PT st (sreach_linv n scripts sched NU) f a i j thi thj MShared y Ha Ni Nj R Hy) as C.
   destruct y; simpl in *; try discriminate; auto.
 Qed.
 
 Theorem reach_no_lock_assert : forall n scripts sched i th,
+  noupd scripts = true ->
   nthN i (mths (sreach n scripts sched)) = Some th -> tpc th <> CrashedL.
-Proof. intros n scripts sched. apply no_lock_assert_fails. apply sreach_linv. Qed.
+Proof. intros n scripts sched i th NU. apply no_lock_assert_fails. apply sreach_linv. exact NU. Qed.
 
 (* a step that changes the key of an anchor or clears its waitingToBeFreed mark is made by an exclusive holder *)
 Theorem reach_step_protected : forall n scripts sched t st' evs b f a a',
   let st := sreach n scripts sched in
+  noupd scripts = true ->
   sstep st t = (st', evs, b) ->
   nthN f (anchors (msh st)) = Some a -> nthN f (anchors (msh st')) = Some a' ->
   akey a' <> akey a \/ (wtbf a = true /\ wtbf a' = false) ->
   exists th, nthN t (mths st) = Some th /\ exclOn f th.
 Proof.
-  intros n scripts sched t st' evs b f a a' st E Ha Ha' H.
+  intros n scripts sched t st' evs b f a a' st NU E Ha Ha' H.
   unfold sstep in E. destruct (nthN t (mths st)) as [th|] eqn:Nt.
   - destruct (terminalk (tpc th)).
     + inversion E; subst. rewrite Ha in Ha'. inversion Ha'; subst. exfalso. destruct H as [H|[H1 H2]]; congruence.
     + destruct (tstep (msh st) th) as [[sh1 th1] evs1] eqn:TS. inversion E; subst; clear E. cbn [msh] in Ha'.
-      exists th. split; [reflexivity|]. eapply tstep_protected; eassumption.
+      exists th. split; [reflexivity|]. eapply tstep_protected; try eassumption. eapply reach_nou_pc; eassumption.
   - inversion E; subst. rewrite Ha in Ha'. inversion Ha'; subst. exfalso. destruct H as [H|[H1 H2]]; congruence.
 Qed.
 
 (* while a reader holds an entry, no step of any process changes its key or removes its mark *)
 Theorem reach_stable_while_read : forall n scripts sched t st' evs b f a a' i thi k,
   let st := sreach n scripts sched in
+  noupd scripts = true ->
   sstep st t = (st', evs, b) ->
   nthN f (anchors (msh st)) = Some a -> nthN f (anchors (msh st')) = Some a' ->
   nthN i (mths st) = Some thi -> isReader thi f k ->
   akey a' = akey a /\ (wtbf a = true -> wtbf a' = true).
 Proof.
-  intros n scripts sched t st' evs b f a a' i thi k st E Ha Ha' Ni R.
+  intros n scripts sched t st' evs b f a a' i thi k st NU E Ha Ha' Ni R.
   assert (X : ~ (akey a' <> akey a \/ (wtbf a = true /\ wtbf a' = false))).
-  { intro H. destruct (reach_step_protected n scripts sched t st' evs b f a a' E Ha Ha' H) as (th & Nt & EX).
-    eapply (excl_vs_reader st f a i t thi th k); try eassumption. apply sreach_linv. }
+  { intro H. destruct (reach_step_protected n scripts sched t st' evs b f a a' NU E Ha Ha' H) as (th & Nt & EX).
+    eapply (excl_vs_reader st f a i t thi th k); try eassumption. apply sreach_linv. exact NU. }
   split.
   - destruct (key_eq_dec (akey a') (akey a)); [assumption|]. exfalso. apply X. left. assumption.
   - intro W. destruct (wtbf a') eqn:W'; [reflexivity|]. exfalso. apply X. right. split; auto.
@@ -599,29 +613,31 @@ Qed.
 (* a slice is given back to the pool only by an activity holding exclusively the anchor whose chain it walks ... *)
 Theorem reach_free_by_exclusive : forall n scripts sched t st' evs b sid,
   let st := sreach n scripts sched in
+  noupd scripts = true ->
   sstep st t = (st', evs, b) -> In (t, MFree sid) evs ->
   exists th g p, nthN t (mths st) = Some th /\ exclOn g th /\ (tpc th = Prim g p \/ tpc th = Tran g p).
 Proof.
-  intros n scripts sched t st' evs b sid st E I.
+  intros n scripts sched t st' evs b sid st NU E I.
   unfold sstep in E. destruct (nthN t (mths st)) as [th|] eqn:Nt; [|inversion E; subst; contradiction].
   destruct (terminalk (tpc th)); [inversion E; subst; contradiction|].
   destruct (tstep (msh st) th) as [[sh1 th1] evs1] eqn:TS. inversion E; subst; clear E.
   apply in_map_iff in I. destruct I as (e & Ee & Ie). inversion Ee; subst e.
-  destruct (tstep_free_excl _ _ _ _ _ _ TS Ie) as (g & EX & p & TP).
+  destruct (tstep_free_excl _ _ _ _ _ _ (reach_nou_pc _ _ _ _ _ NU Nt) TS Ie) as (g & EX & p & TP).
   exists th, g, p. repeat split; assumption.
 Qed.
 
 (* ... hence never while some process has that entry open for reading *)
 Theorem reach_no_free_while_read : forall n scripts sched t st' evs b sid,
   let st := sreach n scripts sched in
+  noupd scripts = true ->
   sstep st t = (st', evs, b) -> In (t, MFree sid) evs ->
   exists th g p, nthN t (mths st) = Some th /\ (tpc th = Prim g p \/ tpc th = Tran g p) /\
     forall a i thi k, nthN g (anchors (msh st)) = Some a -> nthN i (mths st) = Some thi -> ~ isReader thi g k.
 Proof.
-  intros n scripts sched t st' evs b sid st E I.
-  destruct (reach_free_by_exclusive n scripts sched t st' evs b sid E I) as (th & g & p & Nt & EX & TP).
+  intros n scripts sched t st' evs b sid st NU E I.
+  destruct (reach_free_by_exclusive n scripts sched t st' evs b sid NU E I) as (th & g & p & Nt & EX & TP).
   exists th, g, p. repeat split; try assumption.
-  intros a i thi k Ha Ni R. eapply (excl_vs_reader st g a i t thi th k); try eassumption. apply sreach_linv.
+  intros a i thi k Ha Ni R. eapply (excl_vs_reader st g a i t thi th k); try eassumption. apply sreach_linv. exact NU.
 Qed.
 
 (* ---------- a successful open for reading saw an unmarked anchor with the requested key ---------- *)
@@ -687,15 +703,16 @@ Qed.
 
 Theorem reach_open_saw_unmarked : forall n scripts sched t st' evs b c k m',
   let st := sreach n scripts sched in
+  noupd scripts = true ->
   sstep st t = (st', evs, b) -> In (t, MRet c (OOpenR (Some k)) m') evs ->
   exists f a, nthN f (anchors (msh st)) = Some a /\ wtbf a = false /\ akey a = k.
 Proof.
-  intros n scripts sched t st' evs b c k m' st E I.
+  intros n scripts sched t st' evs b c k m' st NU E I.
   unfold sstep in E. destruct (nthN t (mths st)) as [th|] eqn:Nt; [|inversion E; subst; contradiction].
   destruct (terminalk (tpc th)); [inversion E; subst; contradiction|].
   destruct (tstep (msh st) th) as [[sh1 th1] evs1] eqn:TS. inversion E; subst; clear E.
   apply in_map_iff in I. destruct I as (e & Ee & Ie). inversion Ee; subst e.
-  destruct (tstep_opened _ _ _ _ _ _ _ _ TS Ie) as (f & a & p & _ & Ha & W & K).
+  destruct (tstep_opened _ _ _ _ _ _ _ _ (reach_nou_pc _ _ _ _ _ NU Nt) TS Ie) as (f & a & p & _ & Ha & W & K).
   exists f, a. repeat split; assumption.
 Qed.
 
@@ -705,11 +722,12 @@ Definition allClosed (st : mstate) : Prop :=
 
 Theorem reach_idle_when_all_closed : forall n scripts sched f a,
   let st := sreach n scripts sched in
+  noupd scripts = true ->
   allClosed st -> nthN f (anchors (msh st)) = Some a ->
   lk a = idle_shared /\ probe (lk a) = Some [EvRet OpLX true; EvRet OpLS true; EvRet OpLH true].
 Proof.
-  intros n scripts sched f a st AC Ha.
-  destruct (sreach_linv n scripts sched) as [HL _]. specialize (HL f a Ha). fold st in HL.
+  intros n scripts sched f a st NU AC Ha.
+  destruct (sreach_linv n scripts sched NU) as [HL _]. specialize (HL f a Ha). fold st in HL.
   assert (ID : lk a = idle_shared).
   { apply (idle_when_all_released _ HL). cbn [ths]. intros x I. unfold proj in I. apply in_flat_map in I.
     destruct I as (th & It & Ix). destruct (AC th f It) as [P T]. cbn [In] in Ix.
@@ -725,4 +743,33 @@ Lemma closedb_allClosed : forall st, closedb st = true -> allClosed st.
 Proof.
   intros st H th f I. unfold closedb in H. rewrite forallb_forall in H. specialize (H th I).
   unfold holdsP, holdsT, pri, tra. destruct (cm th); try discriminate H; destruct (tpc th); try discriminate H; split; reflexivity.
+Qed.
+
+(* ---------- the known finding with updaters: witness (see Properties_C55.v) ---------- *)
+Definition wit_scripts : list (list kop) :=
+  [[KW (1%N, 0%N); KAdd 2; KAdd 3; KCw; KU (1%N, 0%N); KSp 1; KAdd 5; KCu; KK (1%N, 0%N)]; [KR (1%N, 0%N); KLook; KLook; KLook; KCr]].
+Definition wit_sched : list N := repeat 0%N 35 ++ repeat 1%N 15 ++ repeat 0%N 220.
+
+(* what reader 1 sees and what is freed meanwhile: its chain walks, its close, and all MFree events, in order *)
+Definition reader1_view (evs : list (N * mevent)) : list (N * mevent) :=
+  filter (fun e => match e with
+                   | (1%N, MRet KLook _ _) | (1%N, MRet KCr _ _) | (1%N, MRet (KR _) _ _) | (_, MFree _) => true
+                   | _ => false
+                   end) evs.
+
+Lemma stale_reader_witness :
+  exists scripts sched st evs n,
+    srun_case 4 scripts sched = Some (st, evs, n) /\
+    reader1_view evs =
+      [ (1%N, MRet (KR (1%N, 0%N)) (OOpenR (Some (1%N, 0%N))) (CRead 1 (1%N, 0%N)));
+        (1%N, MRet KLook (OLook [(0, 2%N); (1, 3%N)] true) (CRead 1 (1%N, 0%N)));
+        (0%N, MFree 2); (0%N, MFree 1);
+        (1%N, MRet KLook (OLook [(0, 2%N); (1, 0%N)] true) (CRead 1 (1%N, 0%N)));
+        (1%N, MRet KLook (OLook [(0, 2%N); (1, 0%N)] true) (CRead 1 (1%N, 0%N)));
+        (1%N, MRet KCr OUnit CIdle) ].
+Proof.
+  exists wit_scripts, wit_sched.
+  destruct (srun_case 4 wit_scripts wit_sched) as [[[st evs] n]|] eqn:E; [|vm_compute in E; discriminate E].
+  exists st, evs, n. split; [reflexivity|].
+  vm_compute in E. inversion E; subst; clear E. vm_compute. reflexivity.
 Qed.
